@@ -3,7 +3,7 @@ import re
 import numpy as np
 import yaml
 
-from ....core.error import MatrixGaussianError, SimpleGaussianError
+from ....core.error import CovMat, MatrixGaussianError, SimpleGaussianError
 from ...xy import XYContainer
 
 __all__ = [
@@ -82,7 +82,11 @@ def write_errors_to_yaml(container, yaml_doc):
                 else:
                     _yaml_section[-1]["matrix"] = _err_obj.cov_mat  # .tolist()
             elif _mtype == "correlation":
-                _yaml_section[-1]["matrix"] = _err_obj.cor_mat  # .tolist()
+                if _is_relative:
+                    # correlations of the relative errors as specified (independent of the reference values)
+                    _yaml_section[-1]["matrix"] = CovMat(_err_obj.cov_mat_rel).cor_mat
+                else:
+                    _yaml_section[-1]["matrix"] = _err_obj.cor_mat  # .tolist()
                 _yaml_section[-1]["error_value"] = _err_val
             else:
                 raise TypeError("Unknown error matrix type '{}'. " "Valid: 'correlation' or 'covariance'.")
